@@ -77,6 +77,11 @@ class _:
     def ensures_sqrtrem(x, result):
         return result[0] >= 0 and result[0] * result[0] + result[1] == x and 0 <= result[1] and result[1] <= 2 * result[0]
 
+    def ensures_floor(x, result):
+        return result[0] == isqrt(x)
+
+    post_hints = ['lemma_sq_expand(result[0])', 'lemma_isqrt_unique(x, result[0])']
+
     loops = {
         0: dict(invariant=lambda x, y, rem: rem == x - y * y and y >= 0 and (y + 1) * (y + 1) > x),
         # the second correction loop is dead code under isqrt_fast's contract (its update would be
@@ -126,3 +131,17 @@ class _:
     gaps = [dict(name='all clauses of s**n against the exact rational power (bounded)',
                  clauses=['wf', 'bits', 'special', 'exact', 'directed'], cond=lambda s, n: True,
                  gen='pow_int_inputs')]
+
+
+@contract(IM + 'isqrt_python')
+class _:
+    shapes = dict(x='int')
+    result = 'int'
+    default_props = ['C02']
+    all_props = ['C02']
+
+    def requires(x):
+        return x >= 0
+
+    def ensures_floor(x, result):
+        return result == isqrt(x) and result >= 0 and result * result <= x and x < (result + 1) * (result + 1)
